@@ -1274,7 +1274,10 @@ class Evaluator:
     def resolved_val(self, r, st) -> Val:
         kind = r[0]
         if kind == 'func':
-            return Fn('repo', r[2])
+            fi_ = r[2]
+            if getattr(fi_, 'cls', None) is not None and fi_.is_classmethod:
+                return Fn('repo', fi_, self_val=Fn('class', fi_.cls))        # Class.method on a classmethod is bound to the class
+            return Fn('repo', fi_)
         if kind == 'class':
             return Fn('class', r[2])
         if kind == 'lib':
@@ -1324,11 +1327,15 @@ class Evaluator:
             if m is not None:
                 if m.is_property:
                     return self._invoke(m, st, [], {}, None, base, node)
+                if m.is_classmethod:
+                    return Fn('repo', m, self_val=Fn('class', base.cls))
                 return Fn('repo', m, self_val=base)
             return Term('attr', (base, Const(attr)))
         if isinstance(base, Fn) and base.fkind == 'class':
             m = self.prog.find_method(base.ref, attr)
             if m is not None:
+                if m.is_classmethod:
+                    return Fn('repo', m, self_val=base)      # bound to the class: `cls` is the class itself
                 return Fn('repo', m)
             return Term('attr', (base, Const(attr)))
         if isinstance(base, Fn) and base.fkind == 'builtin' and base.ref == 'str' and attr == 'maketrans':
@@ -2368,6 +2375,8 @@ def mk_cat(parts) -> Val:
         t = arr_identity(p_) if isinstance(p_, Num) else p_
         if isinstance(t, Term) and t.head == 'cat':
             flat.extend(t.args)
+        elif isinstance(p_, Num) and isinstance(t, Term) and p_.length is not None:
+            flat.append(t)              # an opaque array is named by its term, however it reached the concatenation
         else:
             flat.append(p_)
     return Term('cat', tuple(flat), kind='ndarray')
@@ -2591,6 +2600,18 @@ def b_divmod(ev, pos, kw, st, node):
 
 def h_linspace(ev, pos, kw, st, node):
     """linspace(a, b, k, endpoint=False) is linspace(a, b, k + 1)[:-1] (same step (b - a)/k, the end point dropped)"""
+    ax = kw.get('axis')
+    if ax is not None and not getattr(ev, '_in_linspace_axis', False):
+        # linspace(S, E, k, axis=-1) on 1-D end points is the transpose of the default (axis=0) layout
+        ends = [kw.get('start', pos[0] if pos else None), kw.get('stop', pos[1] if len(pos) > 1 else None)]
+        if isinstance(ax, Num) and ax.is_const() and ax.const() in (-1, 1) and any(isinstance(x_, Num) and x_.length is not None for x_ in ends) and len(pos) <= 4:
+            ev._in_linspace_axis = True
+            try:
+                base = ev.call_lib('numpy.linspace', list(pos), {k: v for k, v in kw.items() if k != 'axis'}, None, st, node)
+            finally:
+                ev._in_linspace_axis = False
+            return base.args[0] if isinstance(base, Term) and base.head == 'T' else Term('T', (base,), kind=getattr(base, 'kind', 'unknown'))
+        return None
     ep = kw.get('endpoint', pos[3] if len(pos) > 3 else None)
     if not (isinstance(ep, Const) and ep.v is False) or getattr(ev, '_in_linspace', False):
         return None
@@ -3030,6 +3051,16 @@ def m_flatten(ev, recv, pos, kw, st, node):
     return None
 
 
+def m_reshape(ev, recv, pos, kw, st, node):
+    """reshape(-1) is the row-major flattening"""
+    shp = pos[0] if len(pos) == 1 else None
+    if isinstance(shp, Tup) and len(shp.items) == 1:
+        shp = shp.items[0]
+    if not kw and isinstance(shp, Num) and shp.is_const() and shp.const() == -1:
+        return m_flatten(ev, recv, [], {}, st, node) if isinstance(recv, Num) else (Term('method:flatten', (recv,), kind='ndarray', node=node) if isinstance(recv, Term) else None)
+    return None
+
+
 def m_item(ev, recv, pos, kw, st, node):
     return recv if isinstance(recv, Num) and recv.length is None else None
 
@@ -3075,7 +3106,7 @@ def m_startswith(ev, recv, pos, kw, st, node):
 
 
 METHOD_HANDLERS = {'get': m_get, 'sum': m_sum, 'copy': m_copy, 'min': m_reduce('Min'), 'max': m_reduce('Max'), 'mean': m_reduce('Mean'),
-                   'std': m_std, 'astype': m_astype, 'flatten': m_flatten, 'ravel': m_flatten, 'item': m_item,
+                   'std': m_std, 'astype': m_astype, 'flatten': m_flatten, 'reshape': m_reshape, 'ravel': m_flatten, 'item': m_item,
                    'take': m_take, 'append': m_append, 'extend': m_extend, 'replace': m_replace,
                    'startswith': m_startswith}
 
